@@ -548,6 +548,11 @@ func Pow(y tensor.Tensor, x tensor.Tensor, a float64) (gctx *GradContext) {
 				target: x,
 				gradFn: func() (tensor.Tensor, error) {
 					gy := y.Gradient()
+					if a == 0 {
+						// d/dx x^0 = 0 everywhere; 0 * x^-1 would be NaN at x = 0
+						return toZeros(gy), nil
+					}
+
 					gx := x.Pow(a - 1)
 					gx = gx.Scale(a)
 
